@@ -17,6 +17,10 @@ extern ssize_t mpt_qpost(MPT_STRUCT(queue) *queue, size_t len)
 {
 	size_t low, high, total;
 	
+	/* nothing to reserve */
+	if (!len) {
+		return 0;
+	}
 	/* try to fit in existing memory */
 	if (!mpt_queue_empty(queue, &low, &high)) {
 		return MPT_ERROR(MissingBuffer);
